@@ -3,7 +3,8 @@
 Case line:  plen=<n> total=<n> done=<01..> seed=<n> files=<a,b,..> | op ...
   R:i:b:l  REQUEST     C:i:b:l  CANCEL     D:0 / D:1  unchoke / choke decision
   W:k      the library-side socket accepts k more bytes in this event_write      W:inf  unlimited
-Normal form (the harness needs it): D:1 never directly follows R/C/D:0 (a W:0 is inserted), at most
+Normal form (the harness needs it): D:1 never directly follows R/C/D:0 and is always followed by a W
+(a W:0 is inserted), at most
 two D:1 per case (each later D:0 costs 11 s of virtual time and no 30 s tick may fall in a case),
 every case ends with W:inf."""
 import glob
@@ -57,6 +58,14 @@ def normalize(ops):
             if out and out[-1][0] in "RC" or (out and out[-1] == "D:0"):
                 out.append("W:0")
         out.append(o)
+    # the library gets write opportunities (event_write with nothing accepted) while virtual time
+    # passes before a later D:0: make that explicit for the model as a W:0 right after every D:1
+    out2 = []
+    for j, o in enumerate(out):
+        out2.append(o)
+        if o == "D:1" and not (j + 1 < len(out) and out[j + 1][0] == "W"):
+            out2.append("W:0")
+    out = out2
     if not out or out[-1] != "W:inf":
         out.append("W:inf")
     return out
@@ -214,7 +223,7 @@ def gen(seed, tier):
                 stats["corpus"] += 1
     for L in LAYOUTS[:3]:
         for h in HAND:
-            cases.append(L.head() + " | " + h)
+            cases.append(L.head() + " | " + " ".join(normalize(h.split())))
             stats["hand"] += 1
     nval, nbnd, nmal = (60, 90, 40) if tier == "quick" else (500, 700, 300)
     for mode, cnt in (("valid", nval), ("boundary", nbnd), ("malformed", nmal)):
